@@ -26,6 +26,7 @@ RULE = ("cases = (kind, subtype, element, total_bounds, total_bounds type, p): e
 ASSUMPTIONS = ["reference equality only where (mid - lo) * 2^p / width is exact in float64 "
                "(width a power of two, quarter-grid coordinates)",
                "missing / empty rows: only the range clause applies"]
+SPLIT_KINDS = True         # thorough tier: one shard per geometry kind
 DECIDING_COUNTERS = ["range_checked", "reference_checked", "independence_checked"]
 
 TB_TYPES = ["list", "tuple", "ndarray", "ndarray-int", "series", "list-int", "none"]
